@@ -232,6 +232,44 @@ theorem reachTarget_spec {n : Nat} {c : Fin n → Fin n → ℤ} {s t : Fin n} (
         show gt (st (st d.parents t.val u) d.target INV) x = gt d.parents x
         rw [hi.tgt, gt_st_ne _ _ _ _ (fun e => hxt e.symm), gt_st_ne _ _ _ _ (fun e => hxt e.symm)]
 
+/-- pushing the newly discovered node `v = tgt e` (parent `u`) keeps the DFS invariant -/
+theorem di_push {n : Nat} {c : Fin n → Fin n → ℤ} {s t : Fin n} (hN : n ≤ INV)
+    (d : Dinic) (F : ℤ) (hi : DI c s t d F) (u e : Nat) (lu : List Nat)
+    (hcu : PChain n s.val d.parents u lu) (hun : u < n) (hre : InRange d.g u e)
+    (hvI : gt d.parents (gt d.g.tgt e) = INV) (hvt : gt d.g.tgt e ≠ t.val) (fl : ℤ) :
+    DI c s t { d with parents := st d.parents (gt d.g.tgt e) u, stack := (gt d.g.tgt e, fl) :: d.stack } F ∧
+    PChain n s.val (st d.parents (gt d.g.tgt e) u) u lu ∧ gt d.g.tgt e < n ∧ gt d.g.tgt e ∉ lu ∧
+    gt d.g.tgt e ≠ s.val := by
+  have hgn := hi.fi.hn
+  have hvn : gt d.g.tgt e < n := by
+    rw [← hgn]; exact hi.fi.wf.tgtOK e (hi.fi.wf.inRange_lt (by rw [hgn]; exact hun) hre)
+  obtain ⟨pa, pb, pc⟩ := pchain_props s.isLt hi.hs hN hcu
+  have hvlu : gt d.g.tgt e ∉ lu := fun hm => (pa _ hm).2 hvI
+  have hvs : gt d.g.tgt e ≠ s.val := by
+    intro hh; rw [hh, hi.hs] at hvI
+    have := s.isLt; omega
+  have hcu' : PChain n s.val (st d.parents (gt d.g.tgt e) u) u lu :=
+    pchain_congr hcu (fun x hx => gt_st_ne _ _ _ _ (fun e' => hvlu (e' ▸ hx)))
+  have hgv : gt (st d.parents (gt d.g.tgt e) u) (gt d.g.tgt e) = u :=
+    gt_st_eq _ _ _ (by rw [hi.psz]; exact hvn)
+  refine ⟨?_, hcu', hvn, hvlu, hvs⟩
+  refine ⟨hi.fi, hi.uq, hi.rc, hi.src, hi.tgt, by simp [hi.psz], ?_, ?_, ?_⟩
+  · show gt (st d.parents (gt d.g.tgt e) u) s.val = s.val
+    rw [gt_st_ne _ _ _ _ hvs]; exact hi.hs
+  · show gt (st d.parents (gt d.g.tgt e) u) t.val = INV
+    rw [gt_st_ne _ _ _ _ hvt]; exact hi.ht
+  · intro y hy
+    simp only [List.map_cons, List.mem_cons] at hy
+    rcases hy with rfl | hy
+    · exact ⟨gt d.g.tgt e :: lu,
+        PChain.step hvs hvn (by rw [hgv]; exact hun) (by rw [hgv]; exact hcu') hvlu⟩
+    · obtain ⟨l, hl⟩ := hi.stk y hy
+      obtain ⟨la, _, _⟩ := pchain_props s.isLt hi.hs hN hl
+      refine ⟨l, pchain_congr hl ?_⟩
+      intro x hx
+      show gt (st d.parents (gt d.g.tgt e) u) x = gt d.parents x
+      exact gt_st_ne _ _ _ _ (fun e' => (la x hx).2 (e' ▸ hvI))
+
 theorem dfsEdges_spec {n : Nat} {c : Fin n → Fin n → ℤ} {s t : Fin n} (hst : s ≠ t) (hN : n ≤ INV)
     (u : Nat) (flow : ℤ) (hun : u < n) (k : Nat) :
     ∀ (e : Nat) (d : Dinic) (bf : ℤ) (F : ℤ) (lu : List Nat) (d' : Dinic) (bf' : ℤ),
@@ -255,11 +293,7 @@ theorem dfsEdges_spec {n : Nat} {c : Fin n → Fin n → ℤ} {s t : Fin n} (hst
       · exact ih (e + 1) d bf F lu d' bf' hi hcu (by omega) (by omega) h
       · split at h
         · exact ih (e + 1) d bf F lu d' bf' hi hcu (by omega) (by omega) h
-        · rename_i hav
-          have hre : InRange d.g u e := ⟨hr1, by omega⟩
-          have hgn := hi.fi.hn
-          have hvn : gt d.g.tgt e < n := by
-            rw [← hgn]; exact hi.fi.wf.tgtOK e (hi.fi.wf.inRange_lt (by rw [hgn]; exact hun) hre)
+        · have hre : InRange d.g u e := ⟨hr1, by omega⟩
           have hvI : gt d.parents (gt d.g.tgt e) = INV := by
             cases Nat.decEq (gt d.parents (gt d.g.tgt e)) INV with
             | isTrue h => exact h
@@ -271,32 +305,7 @@ theorem dfsEdges_spec {n : Nat} {c : Fin n → Fin n → ℤ} {s t : Fin n} (hst
             exact reachTarget_spec hst hN d F hi u e lu hcu hun hre hvt bf d' bf' h
           · rename_i hvt
             rw [hi.tgt] at hvt
-            obtain ⟨pa, pb, pc⟩ := pchain_props s.isLt hi.hs hN hcu
-            have hvlu : gt d.g.tgt e ∉ lu := fun hm => (pa _ hm).2 hvI
-            have hvs : gt d.g.tgt e ≠ s.val := by
-              intro hh; rw [hh, hi.hs] at hvI
-              have := s.isLt; omega
-            have hcu' : PChain n s.val (st d.parents (gt d.g.tgt e) u) u lu :=
-              pchain_congr hcu (fun x hx => gt_st_ne _ _ _ _ (fun e' => hvlu (e' ▸ hx)))
-            have hgv : gt (st d.parents (gt d.g.tgt e) u) (gt d.g.tgt e) = u :=
-              gt_st_eq _ _ _ (by rw [hi.psz]; exact hvn)
-            have hi2 : DI c s t { d with parents := st d.parents (gt d.g.tgt e) u, stack := (gt d.g.tgt e, min flow (gt d.g.cap e)) :: d.stack } F := by
-              refine ⟨hi.fi, hi.uq, hi.rc, hi.src, hi.tgt, by simp [hi.psz], ?_, ?_, ?_⟩
-              · show gt (st d.parents (gt d.g.tgt e) u) s.val = s.val
-                rw [gt_st_ne _ _ _ _ hvs]; exact hi.hs
-              · show gt (st d.parents (gt d.g.tgt e) u) t.val = INV
-                rw [gt_st_ne _ _ _ _ hvt]; exact hi.ht
-              · intro y hy
-                simp only [List.map_cons, List.mem_cons] at hy
-                rcases hy with rfl | hy
-                · exact ⟨gt d.g.tgt e :: lu,
-                    PChain.step hvs hvn (by rw [hgv]; exact hun) (by rw [hgv]; exact hcu') hvlu⟩
-                · obtain ⟨l, hl⟩ := hi.stk y hy
-                  obtain ⟨la, _, _⟩ := pchain_props s.isLt hi.hs hN hl
-                  refine ⟨l, pchain_congr hl ?_⟩
-                  intro x hx
-                  show gt (st d.parents (gt d.g.tgt e) u) x = gt d.parents x
-                  exact gt_st_ne _ _ _ _ (fun e' => (la x hx).2 (e' ▸ hvI))
+            obtain ⟨hi2, hcu', _, _, _⟩ := di_push hN d F hi u e lu hcu hun hre hvI hvt (min flow (gt d.g.cap e))
             exact ih (e + 1) _ bf F lu d' bf' hi2 hcu' (show d.g.beginEdges u ≤ e + 1 by omega)
               (show e + 1 + k ≤ d.g.beginEdges u + d.g.deg u by omega) h
 
